@@ -13,6 +13,15 @@
 
 package cache
 
+// Named frames (lists of heap / ghost patterns used in "modifies").
+//@ frame clock := G|clock G|clk G|nclk
+//@ frame log := G|cnt|logTrait.* G|arg|logTrait.* G|res|logTrait.*
+//@ frame stat := G|metric G|cnt|StatsTracker.Add G|arg|StatsTracker.Add|* G|res|StatsTracker.Add|*
+//@ frame backendread := G|cnt|ReadWriter.Read G|arg|ReadWriter.Read|* G|res|ReadWriter.Read|*
+//@ frame backendwrite := G|cnt|ReadWriter.Write G|arg|ReadWriter.Write|* G|res|ReadWriter.Write|*
+//@ frame builder := G|cnt|buildFunc G|arg|buildFunc|* G|res|buildFunc|*
+//@ frame errcache := new:H|TraitEntry|* new:E|byte|* M|map[uint64]*TraitEntry|* H|Trait|.expirationsSet H|TraitEntry|.C G|rand G|cnt|rand
+
 // ---------------------------------------------------------------------------------------------------
 // context.go  (C06)
 // ---------------------------------------------------------------------------------------------------
@@ -25,7 +34,7 @@ package cache
 //@       result == ctx && *cell == (old(*cell) == 0 ? ttl : (ttl == 0 ? old(*cell) : min(old(*cell), ttl)))
 //@   ensures [C06.fresh] !(updateExisting && cell != nil) ==>
 //@       fresh(ttlCell(result)) && ttlOf(result) == ttl && (cell != nil ==> *cell == old(*cell))
-//@   ensures [C06.skipkept] skipRead(result) == skipRead(ctx)
+//@   ensures [C06.skipkept] result != nil && skipRead(result) == skipRead(ctx)
 //@   ensures [C06.frame] forall p ref :: old(allocated(p)) && p != cell ==> durAt(p) == old(durAt(p))
 //@   replay withttl existing=ttlOf(ctx) ttl=ttl update=updateExisting hascell=ttlCell(ctx)!=nil
 
@@ -42,12 +51,12 @@ package cache
 //@ func WithSkipRead
 //@   props C06
 //@   requires ctx != nil
-//@   ensures [C06.withskip] skipRead(result) && ttlCell(result) == ttlCell(ctx)
+//@   ensures [C06.withskip] result != nil && skipRead(result) && ttlCell(result) == ttlCell(ctx)
 
 //@ func withoutSkipRead
 //@   props C06
 //@   requires ctx != nil
-//@   ensures [C06.withoutskip] !skipRead(result) && ttlCell(result) == ttlCell(ctx)
+//@   ensures [C06.withoutskip] result != nil && !skipRead(result) && ttlCell(result) == ttlCell(ctx)
 
 // detachedContext: exposes parent values, never cancelled, no deadline (C04, C06).
 
@@ -202,7 +211,7 @@ package cache
 //@       || old(cacheEntry.C) == MaxInt64
 //@   ensures [C12.pr.mostexpired] found && c.Config.EvictionStrategy == EvictMostExpired ==> cacheEntry.C == old(cacheEntry.C)
 //@   ensures [C07.pr.frame] forall p *TraitEntry :: entryKept(p) && (p != cacheEntry ==> p.C == old(p.C))
-//@   modifies H|TraitEntry|.C G|metric G|cnt|* G|arg|* G|res|* G|clock G|clk G|nclk
+//@   modifies H|TraitEntry|.C @stat @log G|clock G|clk G|nclk
 
 // ---------------------------------------------------------------------------------------------------
 // sharded_map.go: ShardedMap as a map with per-entry expiry (C07), key isolation (C09), metrics (C18)
@@ -243,7 +252,7 @@ package cache
 //@   ensures [C18.read.miss] c.t.Stat != nil && !skipRead(ctx) && !found ==> onlyMetric(MetricMiss, 1.0)
 //@   ensures [C18.read.hit] c.t.Stat != nil && !skipRead(ctx) && found && !isExpiredAt(e, now(1)) ==> onlyMetric(MetricHit, 1.0)
 //@   ensures [C18.read.expired] c.t.Stat != nil && !skipRead(ctx) && found && isExpiredAt(e, now(1)) ==> onlyMetric(MetricExpired, 1.0)
-//@   modifies H|TraitEntry|.C G|metric G|cnt|* G|arg|* G|res|* G|clock G|clk G|nclk
+//@   modifies H|TraitEntry|.C @stat @log G|clock G|clk G|nclk
 
 // Write: view' = view[k -> (v, E)], E per C10; other hashes untouched; a colliding key is dropped (a miss, C09);
 // the stored key is a fresh copy (C09: no reference to the caller's slice is retained).
@@ -271,7 +280,7 @@ package cache
 //@   ensures [C18.write.metric] c.t.Stat != nil ==> onlyMetric(MetricWrite, 1.0)
 //@   ensures [C18.write.nostat] c.t.Stat == nil ==> noMetric()
 //@   ensures [C07.write.repok] repOK(c)
-//@   modifies H|TraitEntry|* E|byte|* M|map[uint64]*TraitEntry|* H|Trait|.expirationsSet G|metric G|cnt|* G|arg|* G|res|* G|clock G|clk G|nclk G|rand
+//@   modifies H|TraitEntry|* E|byte|* M|map[uint64]*TraitEntry|* H|Trait|.expirationsSet @stat @log G|clock G|clk G|nclk G|rand
 
 // Delete: ErrNotFound exactly for keys that are not present (a colliding key is not present); otherwise the
 // entry of exactly this key is removed; nothing else changes.
@@ -291,7 +300,7 @@ package cache
 //@   ensures [C18.delete.metric] c.t.Stat != nil && found ==> onlyMetric(MetricDelete, 1.0)
 //@   ensures [C18.delete.none] c.t.Stat == nil || !found ==> noMetric()
 //@   ensures [C07.delete.repok] repOK(c)
-//@   modifies M|map[uint64]*TraitEntry|* G|metric G|cnt|* G|arg|* G|res|*
+//@   modifies M|map[uint64]*TraitEntry|* @stat @log
 
 // Load / Store are Read / Write with the background context.
 
@@ -304,7 +313,7 @@ package cache
 //@   ensures [C07.load.hit] found && !isExpiredAt(e, now(1)) ==> result0 == e.V && result1
 //@   ensures [C07.load.miss] !found || isExpiredAt(e, now(1)) ==> result0 == nil && !result1
 //@   ensures [C07.load.frame] mapKept(c) && entriesKept()
-//@   modifies H|TraitEntry|.C G|metric G|cnt|* G|arg|* G|res|* G|clock G|clk G|nclk
+//@   modifies H|TraitEntry|.C @stat @log G|clock G|clk G|nclk
 
 // deleteExpired(before): removes exactly the entries that expired before the boundary; never-expiring entries
 // (E == 0) and everything else survive unchanged (C11). The clause is taken from the property statement.
@@ -382,7 +391,7 @@ package cache
 //@   loop 2 invariant [C07.ea.in.visited] forall h uint64 :: h % 128 == i && visited(h) && hasH(c, h) ==> ent(c, h).E == startTS
 //@   loop 2 invariant [C07.ea.in.done] forall h uint64 :: h % 128 < i && hasH(c, h) ==> ent(c, h).E == startTS
 //@   loop 2 invariant [C07.ea.in.kv] forall p *TraitEntry :: old(allocated(p)) ==> p.K == old(p.K) && p.V == old(p.V) && p.C == old(p.C)
-//@   modifies H|TraitEntry|.E M|map[uint64]*TraitEntry|* G|metric G|cnt|* G|arg|* G|res|* G|clock G|clk G|nclk
+//@   modifies H|TraitEntry|.E M|map[uint64]*TraitEntry|* @stat @log G|clock G|clk G|nclk
 
 // DeleteAll: the cache is empty afterwards.
 
@@ -397,7 +406,7 @@ package cache
 //@   loop 2 (range c.hashedBuckets[i].data) invariant [C07.da.in.visited] forall h uint64 :: visited(h) ==> !has(c.hashedBuckets[i].data, h)
 //@   loop 2 invariant [C07.da.in.done] forall h uint64 :: h % 128 < i ==> !hasH(c, h)
 //@   loop 2 invariant [C07.da.in.shard] keysInShard(c)
-//@   modifies M|map[uint64]*TraitEntry|* G|metric G|cnt|* G|arg|* G|res|* G|clock G|clk G|nclk
+//@   modifies M|map[uint64]*TraitEntry|* @stat @log G|clock G|clk G|nclk
 
 //@ func (*shardedMapOf[V]).ExpireAll
 //@   like (*shardedMap).ExpireAll subst TraitEntry=TraitEntryOf[V]
@@ -429,7 +438,7 @@ package cache
 //@   ensures [C18.sm.read.miss] c.t.Stat != nil && !skipRead(ctx) && !found ==> onlyMetric(MetricMiss, 1.0)
 //@   ensures [C18.sm.read.hit] c.t.Stat != nil && !skipRead(ctx) && found && !isExpiredAt(e, now(1)) ==> onlyMetric(MetricHit, 1.0)
 //@   ensures [C18.sm.read.expired] c.t.Stat != nil && !skipRead(ctx) && found && isExpiredAt(e, now(1)) ==> onlyMetric(MetricExpired, 1.0)
-//@   modifies H|TraitEntry|.C G|metric G|cnt|* G|arg|* G|res|* G|clock G|clk G|nclk
+//@   modifies H|TraitEntry|.C @stat @log G|clock G|clk G|nclk
 
 //@ func (*syncMap).Write
 //@   props C07 C09 C10 C18
@@ -453,7 +462,7 @@ package cache
 //@       abs(real(sEnt(c, kb).E - now(1)) - real(T)) <= abs(real(T)) * J / 2.0 + 1.0 + abs(real(T)) * J / 1125899906842624.0
 //@   ensures [C18.sm.write.metric] c.t.Stat != nil ==> onlyMetric(MetricWrite, 1.0)
 //@   ensures [C07.sm.write.repok] sRepOK(c)
-//@   modifies H|TraitEntry|* E|byte|* SM|* H|Trait|.expirationsSet G|metric G|cnt|* G|arg|* G|res|* G|clock G|clk G|nclk G|rand
+//@   modifies H|TraitEntry|* E|byte|* SM|* H|Trait|.expirationsSet @stat @log G|clock G|clk G|nclk G|rand
 
 // Delete: "removes a cache entry with a given key and returns ErrNotFound for non-existent keys" (cache.go, Deleter).
 
@@ -468,7 +477,7 @@ package cache
 //@   ensures [C07.sm.delete.others] forall s string :: s != kb ==> sHas(c, s) == old(sHas(c, s)) && sGet(c, s) == old(sGet(c, s))
 //@   ensures [C18.sm.delete.metric] c.t.Stat != nil && found ==> onlyMetric(MetricDelete, 1.0)
 //@   ensures [C18.sm.delete.none] c.t.Stat == nil || !found ==> noMetric()
-//@   modifies SM|* G|metric G|cnt|* G|arg|* G|res|*
+//@   modifies SM|* @stat @log
 //@   replay smdelete
 
 //@ func (*syncMap).deleteExpired
@@ -519,3 +528,214 @@ package cache
 //@   ensures [C18.evict.metric] c.Stat != nil && calls("Trait.Evict") == 1 ==>
 //@       metric(MetricEvict) == old(metric(MetricEvict)) + real(res("Trait.Evict", 1, 0))
 //@   ensures [C18.evict.none] calls("Trait.Evict") == 0 ==> noMetric()
+
+// ---------------------------------------------------------------------------------------------------
+// failover.go: helpers of Failover.Get (C02, C03, C05, C06, C18)
+// ---------------------------------------------------------------------------------------------------
+
+// The failure cache of a Failover: present iff FailedUpdateTTL > -1; a well-formed ShardedMap.
+//@ def errsOK(f) := f.config.FailedUpdateTTL > -1 ==> f.Errors != nil && f.Errors.shardedMap != nil && repOK(f.Errors.shardedMap)
+//@     && f.Errors.shardedMap.t.Config.ExpirationJitter <= 1.0 && f.Errors.shardedMap.t.Config.TimeToLive != 0
+//@     && abs(f.Errors.shardedMap.t.Config.TimeToLive) <= 1577880000000000000
+//@     && f.Errors.shardedMap.t.expirationsSet >= 0 && f.Errors.shardedMap.t.expirationsSet < 4611686018427387904
+//@ def failoverOK(f) := f.backend != nil && errsOK(f)
+
+// valueFromError classifies the backend's answer: (stale value, acceptable?, unexpected backend error).
+
+//@ func (*Failover).valueFromError
+//@   props C03 C02
+//@   let exp := err != nil && isExpiredErr(err)
+//@   let acceptable := exp && (f.config.MaxStaleness == 0 || satsub(now(1), expiredAt(err)) < f.config.MaxStaleness)
+//@   ensures [C03.vfe.nil] err == nil ==> result0 == nil && !result1 && result2 == nil
+//@   ensures [C03.vfe.acceptable] acceptable ==> result0 == expiredValue(err) && result1 && result2 == nil
+//@   ensures [C03.vfe.toostale] exp && !acceptable ==> result0 == nil && !result1 && result2 == nil
+//@   ensures [C03.vfe.absent] err != nil && !exp && errIs(err, ErrNotFound) ==> result0 == nil && !result1 && result2 == nil
+//@   ensures [C03.vfe.fault] err != nil && !exp && !errIs(err, ErrNotFound) ==> result0 == nil && !result1 && result2 == err
+//@   ensures [C03.vfe.clock] clockReads() == ((exp && f.config.MaxStaleness != 0) ? 1 : 0)
+//@   modifies @clock new:H|ErrWithExpiredItem|*
+
+// ctxSync: synchronous unless a stale value is being served and SyncUpdate is off; then a detached context.
+
+//@ func (*Failover).ctxSync
+//@   props C03 C04 C06
+//@   let sync := f.config.SyncUpdate || err != nil
+//@   ensures [C03.ctxsync.sync] sync ==> result1 && result0 == ctx
+//@   ensures [C06.ctxsync.detached] !sync ==> !result1 && dyntype(result0, detachedContext) && payload(result0, detachedContext).parent == ctx
+//@   ensures [C06.ctxsync.values] ctx != nil ==> ctxValueEq(result0, ctx)
+//@   modifies new:H|detachedContext|*
+
+// refreshStale: one re-store of the stale value under a NEW context cell carrying UpdateTTL; the caller's TTL
+// cell is not touched (C06); exactly one cache_refreshed event (C18).
+
+//@ func (*Failover).refreshStale
+//@   props C03 C06 C18
+//@   requires ctx != nil && f.backend != nil
+//@   ensures [C06.refresh.write] calls("ReadWriter.Write") == 1 && bytes(arg("ReadWriter.Write", 1, 2)) == bytes(key)
+//@       && arg("ReadWriter.Write", 1, 3) == value
+//@   ensures [C06.refresh.ttl] ttlOf(arg("ReadWriter.Write", 1, 1)) == f.config.UpdateTTL
+//@       && fresh(ttlCell(arg("ReadWriter.Write", 1, 1))) && skipRead(arg("ReadWriter.Write", 1, 1)) == skipRead(ctx)
+//@   ensures [C06.refresh.frame] forall p ref :: old(allocated(p)) ==> durAt(p) == old(durAt(p))
+//@   ensures [C03.refresh.result] (result == nil) == (res("ReadWriter.Write", 1, 0) == nil)
+//@   ensures [C02.refresh.err] result != nil ==> errProv(bytes(key), result)
+//@   ensures [C18.refresh.metric] f.stat != nil ==> onlyMetric(MetricRefreshed, 1.0)
+//@   ensures [C18.refresh.nostat] f.stat == nil ==> noMetric()
+//@   modifies @backendwrite @stat @log new:H|time.Duration|*
+
+// Values kept in the failure cache are errors (only doBuild writes there; Errors is an exported field, so this
+// is an assumption about users of that field) and they are builder errors for their key (C02).
+//@ def errorsOnly(f) := f.config.FailedUpdateTTL > -1 ==>
+//@     (forall h uint64 :: hasH(f.Errors.shardedMap, h) ==> isError(ent(f.Errors.shardedMap, h).V)
+//@        && errProv(bytes(ent(f.Errors.shardedMap, h).K), ent(f.Errors.shardedMap, h).V))
+
+// recentlyFailed: the cached builder error of this key if the failure cache is on and holds an unexpired entry.
+
+//@ func (*Failover).recentlyFailed
+//@   props C03 C05 C02
+//@   requires ctx != nil && errsOK(f) && errorsOnly(f)
+//@   let on := f.config.FailedUpdateTTL > -1
+//@   let kb := bytes(key)
+//@   let em := f.Errors.shardedMap
+//@   let cached := on && !skipRead(ctx) && old(present(em, kb)) && !isExpiredAt(old(ent(em, hash(kb))), now(1))
+//@   ensures [C05.rf.off] !on ==> result == nil && clockReads() == 0 && noMetric()
+//@   ensures [C05.rf.hit] cached ==> result == old(ent(em, hash(kb))).V && result != nil
+//@   ensures [C05.rf.miss] on && !cached ==> result == nil
+//@   ensures [C02.rf.prov] result != nil ==> errProv(kb, result)
+//@   ensures [C05.rf.frame] on ==> mapKept(em) && entriesKept()
+//@   modifies H|TraitEntry|.C @stat @log @clock
+
+// doBuild: exactly one builder invocation, under the build token of the key (C01), with the caller's context
+// object (C06); on success the value is written with that same context and returned; on failure the error is
+// cached iff FailedUpdateTTL > -1 (C05) and returned; cache_build once, cache_failed iff the builder failed (C18).
+
+//@ func (*Failover).doBuild
+//@   props C01 C02 C03 C05 C06 C18
+//@   requires ctx != nil && buildFunc != nil && failoverOK(f) && errorsOnly(f)
+//@   requires [C01.tok.need] tok(bytes(key))
+//@   requires abs(ttlOf(ctx)) <= 1577880000000000000
+//@   requires f.config.FailedUpdateTTL > -1 ==> f.Errors.shardedMap.t.Stat == f.stat
+//@   requires [C04.observe.stat] f.config.ObserveMutability ==> f.stat != nil
+//@   let kb := old(bytes(key))
+//@   let bval := res(buildFunc, 1, 0)
+//@   let berr := res(buildFunc, 1, 1)
+//@   let werr := res("ReadWriter.Write", 1, 0)
+//@   let em := f.Errors.shardedMap
+//@   ensures [C01.build.once] calls(buildFunc) == 1 && arg(buildFunc, 1, 1) == ctx
+//@   ensures [C03.build.fail] berr != nil ==> result0 == nil && result1 == berr && calls("ReadWriter.Write") == 0
+//@   ensures [C05.build.fail.cached] berr != nil && f.config.FailedUpdateTTL > -1 ==>
+//@       present(em, kb) && ent(em, hash(kb)).V == berr
+//@   ensures [C03.build.ok.write] berr == nil ==> calls("ReadWriter.Write") == 1 && arg("ReadWriter.Write", 1, 1) == ctx
+//@       && bytes(arg("ReadWriter.Write", 1, 2)) == kb && arg("ReadWriter.Write", 1, 3) == bval
+//@   ensures [C03.build.ok.result] berr == nil && werr == nil ==> result0 == bval && result1 == nil
+//@   ensures [C03.build.ok.writefail] berr == nil && werr != nil ==> result0 == nil && result1 == werr
+//@   ensures [C02.build.prov] (result1 == nil ==> prov(kb, result0)) && (result1 != nil ==> errProv(kb, result1))
+//@   ensures [C18.build.metric] f.stat != nil ==> metric(MetricBuild) == old(metric(MetricBuild)) + 1.0
+//@       && metric(MetricFailed) == old(metric(MetricFailed)) + (berr != nil ? 1.0 : 0.0)
+//@       && metric(MetricRefreshed) == old(metric(MetricRefreshed)) && metric(MetricHit) == old(metric(MetricHit))
+//@       && metric(MetricMiss) == old(metric(MetricMiss)) && metric(MetricExpired) == old(metric(MetricExpired))
+//@       && metric(MetricDelete) == old(metric(MetricDelete))
+//@   ensures [C18.build.nostat] f.stat == nil ==> noMetric()
+//@   ensures [C05.build.errs.repok] errsOK(f) && errorsOnly(f)
+//@   modifies @builder @backendwrite @stat @log @clock @errcache H|time.Duration|*
+
+// waitForValue: returns what the owner of the key lock published before closing the channel.
+
+//@ func (*Failover).waitForValue
+//@   props C02 C04
+//@   requires ctx != nil && keyLock != nil
+//@   ensures [C02.wait.published] result0 == keyLock.val && result1 == keyLock.err && closed(keyLock.lock)
+//@   ensures [C02.wait.prov] (result1 == nil ==> prov(klKey(keyLock), result0)) && (result1 != nil ==> errProv(klKey(keyLock), result1))
+//@   modifies @log H|kl|.val* H|kl|.err* G|chanclosed
+
+// ---------------------------------------------------------------------------------------------------
+// failover.go: the per-key build lock (C01, C04), publication to waiters (C02), Get (C02..C06, C18)
+// ---------------------------------------------------------------------------------------------------
+
+// keyLocks is the token map of the per-key build lock: inserting a key creates the build token of that key,
+// deleting it consumes the token. Its contents are only touched under f.lock (and may be changed by other
+// goroutines whenever f.lock is free: "interference"). f.lock is held only across straight-line code.
+//@ type Failover
+//@   props C01 C04 C16
+//@   interference
+//@   guardedby keyLocks lock
+//@   tokenmap keyLocks
+//@   nocallout lock
+//@   mapinsert keyLocks assume klKey(value) == key
+//@   lockinv lock [C01.lockinv] forall k string :: has(self.keyLocks, k) ==>
+//@       self.keyLocks[k] != nil && klKey(self.keyLocks[k]) == k && !closed(self.keyLocks[k].lock) && self.keyLocks[k].lock != nil
+
+// A key lock publishes (val, err) to waiters by closing its channel: whoever closes must own the build token and
+// must have stored either a non-nil error for the key or a value with provenance for the key (C02). val/err are
+// written only by the token holder and read by others only after the receive completed (C16).
+//@ type kl
+//@   props C02 C16
+//@   chanpub lock [C02.pub] self.err != nil ? errProv(klKey(self), self.err) : prov(klKey(self), self.val)
+//@   published lock val err
+
+// The background build goroutine of Get. It starts owning the build token of its key.
+//@ func (*Failover).Get$2
+//@   thread
+//@   props C01 C02 C04 C05 C06
+//@   holds bytes(*key) *keyLock Failover.keyLocks
+//@   requires *f != nil && *ctx != nil && *buildFunc != nil && *keyLock != nil && failoverOK(*f) && errorsOnly(*f)
+//@   requires (*f).keyLocks != nil && klKey(*keyLock) == bytes(*key) && !closed((*keyLock).lock) && (*keyLock).lock != nil
+//@   requires abs(ttlOf(*ctx)) <= 1577880000000000000
+//@   requires [C06.bg.detached] dyntype(*ctx, detachedContext)
+//@   requires (*f).config.FailedUpdateTTL > -1 ==> (*f).Errors.shardedMap.t.Stat == (*f).stat
+//@   requires [C04.observe.stat] (*f).config.ObserveMutability ==> (*f).stat != nil
+//@   ensures [C01.bg.once] calls(doBuild) == 1 && arg(doBuild, 1, 1) == old(*ctx) && bytes(arg(doBuild, 1, 2)) == old(bytes(*key))
+//@   ensures [C04.bg.released] closed((*keyLock).lock)
+
+// Get. Values named below: the first backend read (rerr, rval), its classification, what the helpers returned.
+//@ func (*Failover).Get
+//@   props C01 C02 C03 C04 C05 C06 C18
+//@   requires ctx != nil && buildFunc != nil && failoverOK(f) && errorsOnly(f) && f.keyLocks != nil
+//@   requires abs(ttlOf(ctx)) <= 1577880000000000000
+//@   requires f.config.FailedUpdateTTL > -1 ==> f.Errors.shardedMap.t.Stat == f.stat
+//@   let kb := old(bytes(key))
+//@   let owner := lockedAt(1, !has(f.keyLocks, kb))
+//@   let rerr := res("ReadWriter.Read", 1, 1)
+//@   let rval := res("ReadWriter.Read", 1, 0)
+//@   let hit := rerr == nil
+//@   let stale := rerr != nil && isExpiredErr(rerr)
+//@   let acceptable := calls(valueFromError) == 1 && res(valueFromError, 1, 1)
+//@   let toostale := stale && !acceptable
+//@   let absent := rerr != nil && !stale && errIs(rerr, ErrNotFound)
+//@   let fault := rerr != nil && !stale && !errIs(rerr, ErrNotFound)
+//@   let sv := expiredValue(rerr)
+//@   ensures [C03.classify] !hit ==> calls(valueFromError) == 1 && arg(valueFromError, 1, 1) == rerr
+//@   let refreshFailed := calls(refreshStale) == 1 && res(refreshStale, 1, 0) != nil
+//@   let failed := calls(recentlyFailed) == 1 && res(recentlyFailed, 1, 0) != nil
+//@   let built := calls(doBuild) == 1
+//@   let bg := calls("go:(*Failover).Get$2") == 1
+//@   let bval := res(doBuild, 1, 0)
+//@   let berr := res(doBuild, 1, 1)
+//@   ensures [C03.read.once] calls("ReadWriter.Read") == 1
+//@   ensures [C03.hit] hit ==> result0 == rval && result1 == nil && !built && !bg && calls(recentlyFailed) == 0 && calls(refreshStale) == 0
+//@   ensures [C03.fault] owner && fault ==> result1 == rerr && !built && !bg
+//@   ensures [C03.refresh] owner && acceptable <==> calls(refreshStale) == 1
+//@   ensures [C03.refresh.failed] owner && refreshFailed ==> result1 == res(refreshStale, 1, 0) && !built && !bg
+//@   ensures [C03.failcached] owner && !hit && !fault && !refreshFailed && failed ==> result1 == res(recentlyFailed, 1, 0) && !built && !bg
+//@   ensures [C03.sync.build] owner && (absent || toostale) && !failed ==> built && !bg
+//@   ensures [C03.sync.ok] owner && (absent || toostale) && !failed && berr == nil ==> result0 == bval && result1 == nil
+//@   ensures [C03.absent.fail] owner && absent && !failed && berr != nil ==> result1 == berr
+//@   ensures [C03.acc.bg] owner && acceptable && !refreshFailed && !failed && !f.config.SyncUpdate ==>
+//@       bg && !built && result0 == sv && result1 == nil
+//@   ensures [C03.acc.sync] owner && acceptable && !refreshFailed && !failed && f.config.SyncUpdate ==> built && !bg
+//@   ensures [C03.acc.sync.ok] owner && acceptable && !refreshFailed && !failed && f.config.SyncUpdate && berr == nil ==>
+//@       result0 == bval && result1 == nil
+//@   ensures [C03.acc.sync.fail.soft] owner && acceptable && !refreshFailed && !failed && f.config.SyncUpdate && berr != nil
+//@       && !f.config.FailHard && sv != nil ==> result0 == sv && result1 == nil
+//@   ensures [C03.acc.sync.fail.hard] owner && acceptable && !refreshFailed && !failed && f.config.SyncUpdate && berr != nil
+//@       && f.config.FailHard ==> result1 == berr
+//@   ensures [C03.toostale.fail.soft] owner && toostale && !failed && berr != nil && !f.config.FailHard && sv != nil ==>
+//@       result0 == sv && result1 == nil
+//@   ensures [C03.toostale.fail.hard] owner && toostale && !failed && berr != nil && f.config.FailHard ==> result1 == berr
+//@   ensures [C02.prov] (result1 == nil ==> prov(kb, result0)) && (result1 != nil ==> errProv(kb, result1))
+//@   ensures [C01.builder.via.doBuild] calls(buildFunc) == calls(doBuild) && calls(doBuild) <= 1
+//@   ensures [C05.gate.failed] built || bg ==> calls(recentlyFailed) == 1 && res(recentlyFailed, 1, 0) == nil
+//@   ensures [C05.gate.syncread] f.config.SyncRead ==> lockedAt(1, cnt("ReadWriter.Read")) == old(cnt("ReadWriter.Read"))
+//@   ensures [C05.waiter.nobuild] !owner && !hit ==> !built && !bg
+//@   ensures [C06.get.ctx] built ==> arg(doBuild, 1, 1) == ctx && bytes(arg(doBuild, 1, 2)) == kb
+//@   ensures [C06.get.bgctx] bg ==> dyntype(res(ctxSync, 1, 0), detachedContext) && payload(res(ctxSync, 1, 0), detachedContext).parent == ctx
+//@   ensures [C18.get.counts] f.stat != nil ==> metric(MetricBuild) == old(metric(MetricBuild)) + real(calls(doBuild))
+//@       && metric(MetricRefreshed) == old(metric(MetricRefreshed)) + real(calls(refreshStale))
